@@ -281,6 +281,26 @@ fn fault_part(ctx: &Ctx) -> (u64, u64, Vec<Value>) {
     (words.len() as u64, steps, samples)
 }
 
+/// Deep nesting goes through the recursive decoder: probe in subprocesses (a stack overflow aborts).
+fn nesting_probe(ctx: &Ctx) -> Vec<Value> {
+    let mut rows = vec![];
+    for kind in ["list", "dict"] {
+        for depth in [100usize, 1000, 10_000, 100_000] {
+            let r = crate::c16::run_probe("tracker", kind, depth, true, 2048);
+            rows.push(json!({"kind": kind, "depth": depth, "result": format!("{:?}", r)}));
+            if let Err(status) = r {
+                ctx.violation(
+                    "deep-nesting-crashes-parser",
+                    format!("{} nested {} kill the process when parsed on a 2 MiB stack: {}", depth, kind, status),
+                    json!({"kind": "nest", "target": "tracker", "shape": kind, "depth": depth, "terminated": true, "stack_kib": 2048}),
+                );
+                break;
+            }
+        }
+    }
+    rows
+}
+
 pub fn run(ctx: &Ctx) -> Outcome {
     let max_len = ctx.tier.pick(6, 7);
     let accs = strings::for_all(max_len, || 0u64, |acc, s| {
@@ -321,12 +341,16 @@ pub fn run(ctx: &Ctx) -> Outcome {
     let mut samples: Vec<Value> = picks.iter().map(|i| json!({"reply": core::show(&docs[*i]), "read_as_success": res[*i].0})).collect();
     samples.extend(fault_samples);
     o.set("samples", Value::Array(samples));
+    o.set("nesting_ladder", Value::Array(nesting_probe(ctx)));
     o.set("exhaustive", json!(true));
     o.assume("a peers entry is malformed iff it is not a dictionary with a UTF-8 string ip, a 20-byte string peer id and a non-negative integer port; ports above 65535 and replies consisting of several dictionaries are outside the alphabet");
     o
 }
 
 pub fn replay(_ctx: &Ctx, r: &Value) -> i32 {
+    if r["kind"] == "nest" {
+        return crate::c16::replay(_ctx, r);
+    }
     if r["kind"] == "faults" {
         let word: Vec<usize> = r["word"].as_array().unwrap().iter().map(|x| x.as_u64().unwrap() as usize).collect();
         let dir = core::private_cwd("c19", "replay");
